@@ -281,6 +281,67 @@ example : toDjson Scalar.dumps [(['a', '"', 'b'], Scalar.int false ['1'])] =
 example : fromDjson Scalar.parse (toDjson Scalar.dumps [(['a', '"', 'b'], Scalar.int false ['1'])]) =
     some [(['a', '"', 'b'], Scalar.int false ['1'])] := by decide
 
+/-! ### registration histories -/
+
+theorem lookupO_setKey_self (d : List (Str × Obj)) (k : Str) (o : Obj) : lookupO k (setKey d k o) = some o := by
+  simp [setKey, lookupO]
+
+theorem lookupO_filter_ne (d : List (Str × Obj)) (k k' : Str) (h : k' ≠ k) :
+    lookupO k' (d.filter (fun e => e.1 ≠ k)) = lookupO k' d := by
+  induction d with
+  | nil => rfl
+  | cons e rest ih =>
+    obtain ⟨a, b⟩ := e
+    rw [List.filter_cons]
+    by_cases hak : a = k
+    · subst hak
+      have hne : ¬ a = k' := fun h' => h h'.symm
+      simp only [ne_eq, not_true_eq_false, decide_false, Bool.false_eq_true, ↓reduceIte, lookupO, hne]
+      exact ih
+    · simp only [ne_eq, hak, not_false_eq_true, decide_true, ↓reduceIte, lookupO]
+      by_cases hak' : a = k'
+      · simp [hak']
+      · simp only [hak', ↓reduceIte]; exact ih
+
+theorem lookupO_setKey_other (d : List (Str × Obj)) (k k' : Str) (o : Obj) (h : k' ≠ k) :
+    lookupO k' (setKey d k o) = lookupO k' d := by
+  have hne : ¬ k = k' := fun h' => h h'.symm
+  unfold setKey
+  simp only [lookupO, hne, ↓reduceIte]
+  exact lookupO_filter_ne d k k' h
+
+/-- **the most recent registration is consistent**: right after `register(T, o)` the qualified type name selects `o` (what
+`encode_state_data` uses and whose identifier it records) and that identifier selects `o` again (what `decode_state_data`
+uses) — also when `T`, or the identifier, was registered before with another object -/
+theorem c11_register_selects (d : List (Str × Obj)) (qual : Str) (o : Obj) :
+    lookupO o.ident (register d qual o) = some o ∧
+    (qual ≠ o.ident → lookupO qual (register d qual o) = some o) := by
+  refine ⟨lookupO_setKey_self _ _ _, fun h => ?_⟩
+  unfold register
+  rw [lookupO_setKey_other _ _ _ _ h, lookupO_setKey_self]
+
+/-- a registration changes nothing but its own two keys -/
+theorem c11_register_frame (d : List (Str × Obj)) (qual : Str) (o : Obj) (k : Str) (h1 : k ≠ qual) (h2 : k ≠ o.ident) :
+    lookupO k (register d qual o) = lookupO k d := by
+  unfold register
+  rw [lookupO_setKey_other _ _ _ _ h2, lookupO_setKey_other _ _ _ _ h1]
+
+/-- … hence after ANY history of registrations the last call is consistent -/
+theorem c11_register_history (d : List (Str × Obj)) (calls : List (Str × Obj)) (qual : Str) (o : Obj) (h : qual ≠ o.ident) :
+    lookupO qual (registerAll d (calls ++ [(qual, o)])) = some o ∧
+    lookupO o.ident (registerAll d (calls ++ [(qual, o)])) = some o := by
+  unfold registerAll
+  rw [List.foldl_append]
+  simp only [List.foldl_cons, List.foldl_nil]
+  exact ⟨(c11_register_selects _ qual o).2 h, (c11_register_selects _ qual o).1⟩
+
+-- non-vacuity: `Grid` registered with a JSON state type, then re-registered with a pickle one carrying the same identifier
+example :
+    let a : Obj := { name := "GridJson".toList, ident := "grid".toList }
+    let b : Obj := { name := "GridPickle".toList, ident := "grid".toList }
+    let d := registerAll [] [("m.Grid".toList, a), ("m.Grid".toList, b)]
+    lookupO "m.Grid".toList d = some b ∧ lookupO "grid".toList d = some b := by decide
+
 end Liquer.C11
 
--- OBLIGATIONS: Liquer.C11.c11_dispatch Liquer.C11.c11_mime Liquer.C11.c11_roundtrip_generic Liquer.C11.c11_roundtrip Liquer.C11.c11_copy_dispatch Liquer.C11.c11_key_roundtrip Liquer.C11.c11_djson Liquer.C11.c11_djson_elements Liquer.C11.c11_djson_full
+-- OBLIGATIONS: Liquer.C11.c11_dispatch Liquer.C11.c11_mime Liquer.C11.c11_roundtrip_generic Liquer.C11.c11_roundtrip Liquer.C11.c11_copy_dispatch Liquer.C11.c11_key_roundtrip Liquer.C11.c11_djson Liquer.C11.c11_djson_elements Liquer.C11.c11_djson_full Liquer.C11.c11_register_selects Liquer.C11.c11_register_frame Liquer.C11.c11_register_history
